@@ -254,7 +254,7 @@ def distribution(cases, obs):
 
 
 TECHNIQUE = "Coq simulation proof: the command-queue monitor holds on every trace accepted by the thread model M6; status table theorem; a Coq oracle for 'the answer was true at some instant of the request' over the interleaved flag writes and reads, proved to accept every snapshot provider and to reject the recorded sequential-read histories; whole-system runs with an in-process HTTP client and exhaustive table rows compared inside Coq"
-LEVEL_TEXT = ("Machine-checked for any number of threads and queue size and every accepted trace: each accepted command is taken exactly once in acceptance order, a refused one never, nothing after a shutdown command; "
+LEVEL_TEXT = ("Machine-checked for any number of threads and queue size and every accepted trace: each accepted command is taken exactly once in acceptance order, a refused one never, nothing after a shutdown command, and no accepted command is still waiting when the second control tick after its acceptance begins; "
               "the status table yields 'paused' iff not shutting down, resume cleared and every flag set. Tied to /repo by runs of the real launch() with a scripted client issuing in-process ASGI requests (valid, bursts above the "
               "queue size, unknown paths, wrong methods, status) against the real Starlette app while the real control loop consumes, and by all rows of the status table for 0-4 threads on the real SystemStatusProvider.")
 LEVEL_NOTE = ("Partial for the status clause: 'the answer was true at some instant of the request' is the Coq function truthful (Check/Sys.v), evaluated on the flag writes / reads / answers of every observed run; proved: it accepts every "
